@@ -228,6 +228,8 @@ def clause_d(ctx, P):
 
 
 def run(ctx, P):
+    from . import f5
+    f5.check_map_key_consistency(ctx, P, "C08f.F5.name-changes-keys", "name_changes", "DnsRegistry")
     f4.check_service_selected_by_resolved_name(ctx, P, "C08e")
     clause_a(ctx, P)
     clause_b(ctx, P)
